@@ -162,6 +162,9 @@ var c06Reqs = []c06Req{
 		[]map[string]interface{}{v("h", true, "t", "A"), v("h", false, "t", "A"), v("h", false, "t", "B"), v("h", true, "t", "B")}, nil},
 	{"abs-dir-var-list", `query($h:Boolean!){ nodes(n:3) { id ... @skip(if:$h) { name } ... on B { peer { id @skip(if:$h) name } } } }`, "",
 		[]map[string]interface{}{v("h", true), v("h", false)}, nil},
+	// occurrences of one response key under different variable-driven conditions
+	{"cond-dup", `query($s:Boolean!){ x1 @skip(if:$s) x1 a @skip(if:$s) { name } a { id } ...F @skip(if:$s) ...F echo(i:1) } fragment F on Query { x2 }`, "",
+		[]map[string]interface{}{v("s", true), v("s", false)}, nil},
 	// the merged selection of an abstract field depends on the parent's runtime type
 	{"abs-merge-var", `query($t:String){ node(as:$t) { peer(as:"B") { id } ... on A { peer(as:"B") { ... on B { bOnly } } } ... on C { peer(as:"B") { name } } } }`, "",
 		[]map[string]interface{}{v("t", "A"), v("t", "B"), v("t", "C")}, nil},
